@@ -31,8 +31,13 @@ type Req struct {
 type Case struct {
 	Routes []Route `json:"routes"`
 	Std    bool    `json:"std,omitempty"`
-	Reqs   []Req   `json:"reqs,omitempty"`
+	// PanicEvery > 0: every n-th handler invocation panics after observing (the harness recovers,
+	// like net/http does per connection); later requests must be dispatched as if nothing happened.
+	PanicEvery int   `json:"panic_every,omitempty"`
+	Reqs       []Req `json:"reqs,omitempty"`
 }
+
+type handlerPanic struct{}
 
 type nullWriter struct{ h http.Header }
 
@@ -51,7 +56,7 @@ type obs struct {
 }
 
 type stats struct {
-	dispatches, matched, noroute, tablesInvalid, malformedAsRooted, malformedAsNoRoute int64
+	dispatches, matched, noroute, tablesInvalid, malformedAsRooted, malformedAsNoRoute, handlerPanics int64
 }
 
 var stdReqs = buildStdReqs()
@@ -118,8 +123,13 @@ func runCase(cs Case, st *stats) (key, expected, observed string) {
 		names = append(names, n)
 	}
 	sort.Strings(names)
+	invocations := 0
 	observe := func(idx int) httpd.HandlerFunc {
 		return func(s *httpd.Store) {
+			invocations++
+			if cs.PanicEvery > 0 && invocations%cs.PanicEvery == 0 {
+				defer panic(handlerPanic{})
+			}
 			o.calls++
 			o.route = idx
 			if s.I != nil {
@@ -171,8 +181,10 @@ func runCase(cs Case, st *stats) (key, expected, observed string) {
 		rk := func(what string) string {
 			return what + ":" + tableKey(cs.Routes) + "|" + rq.M + " " + fmt.Sprintf("%q", rq.P)
 		}
-		if pv != nil {
+		if _, own := pv.(handlerPanic); pv != nil && !own {
 			return rk("panic"), "no panic out of ServeHTTP", fmt.Sprintf("panic: %v", pv)
+		} else if own {
+			st.handlerPanics++
 		}
 		if o.calls != 1 {
 			return rk("calls"), "exactly one handler invocation", fmt.Sprintf("%d invocations", o.calls)
@@ -233,7 +245,7 @@ type mon struct{}
 func (mon) Name() string { return "route" }
 
 func (mon) Level(string) (string, string) {
-	return "exploration", "route tables × requests against a reference router written from the statement. Small scope, exhaustive: all tables of ≤3 routes over 58 patterns; thorough adds all 4-route tables over the 10 distinct ≤2-segment shapes × {GET,POST,*}; (≤2 segments over {a,b,:x,:y,*} and 3 segments over {a,:x,*}) × methods {GET,*} (POST added for tables of ≤2), each against 151 paths (all ≤4-segment paths over {a,b,''} incl. doubled/trailing slashes, look-alike segments ':x' and '*', and malformed paths '', '*', 'a', 'a/b', '//', '///a', ...) × methods {GET,POST,'',BREW}; alternative spellings of patterns (doubled/trailing slashes); seeded random tables of 5..40 routes over all ten methods with arbitrary-byte segments. Handler observes I, RouteParam of every name in the table + an unknown one, RouteParamAny; invocation count; recover(). distinct_nontrivial = distinct successfully registered tables (hash of the route list)"
+	return "exploration", "route tables × requests against a reference router written from the statement. Small scope, exhaustive: all tables of ≤3 routes over 58 patterns; thorough adds all 4-route tables over the 10 distinct ≤2-segment shapes × {GET,POST,*}; (≤2 segments over {a,b,:x,:y,*} and 3 segments over {a,:x,*}) × methods {GET,*} (POST added for tables of ≤2), each against 151 paths (all ≤4-segment paths over {a,b,''} incl. doubled/trailing slashes, look-alike segments ':x' and '*', and malformed paths '', '*', 'a', 'a/b', '//', '///a', ...) × methods {GET,POST,'',BREW}; alternative spellings of patterns (doubled/trailing slashes); seeded random tables of 5..40 routes over all ten methods with arbitrary-byte segments. Some handlers panic after observing (recovered by the harness) and later requests must be unaffected. Handler observes I, RouteParam of every name in the table + an unknown one, RouteParamAny; invocation count; recover(). distinct_nontrivial = distinct successfully registered tables (hash of the route list)"
 }
 
 func (mon) Assumptions(string) []string {
@@ -348,7 +360,7 @@ func (mn mon) Run(sh drv.Shard, c *drv.Ctx) {
 						c.Sample(map[string]any{"table": tableKey(cs.Routes), "requests": "standard set", "n_requests": len(stdReqs)})
 					}
 					// both registration orders for pairs
-					if !exec(cs) || !exec(Case{Routes: []Route{all3[j], all3[i]}, Std: true}) {
+					if !exec(cs) || !exec(Case{Routes: []Route{all3[j], all3[i]}, Std: true, PanicEvery: 2 + idx%5}) {
 						break outer
 					}
 				}
@@ -365,6 +377,9 @@ func (mn mon) Run(sh drv.Shard, c *drv.Ctx) {
 					for k := j + 1; k < len(all); k++ {
 						if mine() {
 							cs := Case{Routes: []Route{all[i], all[j], all[k]}, Std: true}
+							if idx%4 == 0 {
+								cs.PanicEvery = 2 + idx%7
+							}
 							if c.NumSamples() < 2 && k == j+5 {
 								c.Sample(map[string]any{"table": tableKey(cs.Routes), "requests": "standard set", "n_requests": len(stdReqs)})
 							}
@@ -433,6 +448,7 @@ func (mn mon) Run(sh drv.Shard, c *drv.Ctx) {
 			}
 		}
 	}
+	c.Add("handler_panics_recovered_by_harness", st.handlerPanics)
 	c.Add("dispatches", st.dispatches)
 	c.Add("dispatch_matched", st.matched)
 	c.Add("dispatch_noroute", st.noroute)
@@ -483,6 +499,9 @@ func randCase(r *rand.Rand) Case {
 	}
 	// requests: derived from the patterns (so that they reach deep) and random ones
 	nreq := 60
+	if r.Intn(3) == 0 {
+		cs.PanicEvery = 2 + r.Intn(6)
+	}
 	for i := 0; i < nreq; i++ {
 		var p string
 		if r.Intn(4) != 0 {
